@@ -7,7 +7,7 @@ from . import fam_deep, fam_expr, fam_proof, fam_iter, fam_multi, fam_names, fam
 from .core import Part, open_findings
 
 REGISTRY = {
-    "C06": {"families": [fam_iter.run, fam_sql.run, fam_multi.run], "assumptions": ["leaf declarations exact / loose / zero-lower / unbounded, always consistent with the actual row count"]},
+    "C06": {"families": [fam_iter.run, fam_sql.run, fam_multi.run, fam_proof.run], "assumptions": ["leaf declarations exact / loose / zero-lower / unbounded, always consistent with the actual row count"]},
     "C14": {"families": [fam_iter.run, fam_sql.run, fam_multi.run, fam_repo.run], "assumptions": []},
     "C16": {"families": [fam_iter.run, fam_sql.run], "assumptions": ["the executor used in the replay really executes the relation in its engine"]},
     "C18": {"families": [fam_iter.run], "assumptions": ["leaf payloads are harness RowIterable subclasses counting __iter__ calls (public extension point)"]},
